@@ -238,6 +238,68 @@ def main():
         return {'children': procs, 'threads': threads, 'store_lock_free': store_free,
                 'collection_lock_free': coll_free}
 
+    if plan['kind'] == 'inproc':
+        # a task that fails IN THE CALLING PROCESS (one file: no workers) on undecodable input
+        # inside an open section, then further runs that re-use the same definition objects
+        def mk_defs():
+            return (SearchDef(r'(\S) (\S+)', tag='t'),
+                    SequenceSearchDef(start=SearchDef(r'S (\S+)'), body=SearchDef(r'B (\S+)'),
+                                      end=SearchDef(r'E (\S+)') if plan.get('end', True) else None,
+                                      tag='q'))
+        bad = os.path.join(tmp, 'bad.log')
+        with open(bad, 'wb') as f:
+            f.write(b'S first\nB inside\n\xff\xfe not utf-8\nE never\n')
+        good = []
+        for i in range(plan.get('files2', 1)):
+            p = os.path.join(tmp, f'good{i}.log')
+            with open(p, 'w') as f:
+                f.write('B orphan body\nE orphan end\nS one\nB two\nE three\nS open\nB four\n')
+            good.append(p)
+
+        def second(defs):
+            fs = FileSearcher(max_parallel_tasks=2)
+            for p in good:
+                for d in defs:
+                    fs.add(d, p)
+            res = fs.run()
+            out = {}
+            for p in good:
+                secs = res.find_sequence_sections(defs[1], path=p)
+                out[os.path.basename(p)] = sorted([[r.tag, r.linenumber] for r in sec]
+                                                  for sec in secs.values())
+            out['n'] = len(res)
+            return out
+        report(stage='start', plan=plan)
+        defs = mk_defs()
+        t0 = time.monotonic()
+        try:
+            fs = FileSearcher()
+            for d in defs:
+                fs.add(d, bad)
+            fs.run()
+            out1 = {'outcome': 'returned'}
+        except FileSearchException:
+            out1 = {'outcome': 'FileSearchException'}
+        except UnicodeDecodeError:
+            out1 = {'outcome': 'UnicodeDecodeError'}
+        except BaseException as e:  # pylint: disable=broad-except
+            out1 = {'outcome': 'other:' + type(e).__name__}
+        out1['latency'] = round(time.monotonic() - t0, 2)
+        out1['fired'] = True
+        report(stage='run1', **out1)
+        report(stage='leftovers1', **leftovers())
+        try:
+            got = second(defs)
+            want = second(mk_defs())
+            out2 = {'outcome': 'returned', 'n': got['n'], 'per_path': got, 'fresh_defs': want}
+        except BaseException as e:  # pylint: disable=broad-except
+            out2 = {'outcome': 'raised:' + type(e).__name__}
+        report(stage='run2', **out2)
+        report(stage='leftovers2', **leftovers())
+        faulthandler.cancel_dump_traceback_later()
+        report(stage='end')
+        os._exit(0)
+
     report(stage='start', plan=plan)
     t0 = time.monotonic()
     try:
